@@ -147,6 +147,15 @@ impl Builder {
                         drop(m.split_off(init + spare));
                         m
                     }
+                    4 => {
+                        // as 3, then frozen and converted back in place (the capacity is recomputed from the control block's vector)
+                        let mut m = BytesMut::with_capacity(init + spare + 5);
+                        m.extend_from_slice(&[0x5a, 0x5a]);
+                        m.extend_from_slice(&d);
+                        drop(m.split_to(2));
+                        drop(m.split_off(init + spare));
+                        BytesMut::from(m.freeze())
+                    }
                     _ => {
                         // shared representation with a pinned neighbour behind the spare capacity
                         let mut m = BytesMut::with_capacity(init + spare + 3);
@@ -969,7 +978,7 @@ pub fn targets(rich: bool) -> Vec<SSpec> {
     for init in [0usize, 2] {
         for spare in [0usize, 1, 3, 20] {
             wrap1(&SSpec::Vec(init, spare), None, &mut out);
-            for rep in 0..4u8 {
+            for rep in [0u8, 1, 2, 3, 4] {
                 wrap1(&SSpec::BytesMut(rep, init, spare), None, &mut out);
             }
         }
